@@ -370,14 +370,21 @@ def _scan_query(ctx: Ctx, r: RuleResult, c: ClassInfo, fi: FunctionInfo, q: str,
     base_t = Sym('self', fi.cls.name)
     outs = ctx.ev.run(fi, {'self': base_t, **({params[1]: alias} if len(params) > 1 else {})})
     ef = exists_form(ctx.ev, outs)
-    if ef is None:
+    descent = _descent_form(ctx, fi, outs, base_t) if ef is None else None
+    if ef is None and descent is None:
         return False
-    it, each, cond = ef
-    if not (isinstance(it, Call) and call_name(it) == 'iterate' and call_recv(it) == base_t and not it.args and not it.kwargs):
-        return False
+    if descent is not None:
+        # q(x) = self._h(test), _h the uniform descent `test(self) or any(c._h(test) for c in self.children())`: the same
+        # as "some node of the sub-tree satisfies test" provided children() lists every slot (S1/S2)
+        each, cond = descent
+        it = None
+    else:
+        it, each, cond = ef
+        if not (isinstance(it, Call) and call_name(it) == 'iterate' and call_recv(it) == base_t and not it.args and not it.kwargs):
+            return False
     scanned[fi.key] = True
     key = f'{fi.cls.name}.{q}'
-    for wfi in {id(k.resolve('iterate')): k.resolve('iterate') for k in ctx.model.subclasses(fi.cls) if k.resolve(q) is fi}.values():
+    for wfi in ({id(k.resolve('iterate')): k.resolve('iterate') for k in ctx.model.subclasses(fi.cls) if k.resolve(q) is fi}.values() if it is not None else ()):
         if wfi is None:
             r.fail(key + ':walk', 'the scanned walk iterate() is not defined', fi.where)
             continue
@@ -405,6 +412,66 @@ def _scan_query(ctx: Ctx, r: RuleResult, c: ClassInfo, fi: FunctionInfo, q: str,
         if not ok:
             r.fail(f'{k.name}.{q}:scan', f'the element test of the flat scan says {got!r} about a {k.name} node, expected {want}', fi.where, want, repr(got))
     return True
+
+
+def _descent_form(ctx: Ctx, fi: FunctionInfo, outs: List[Outcome], base_t: Term) -> Optional[Tuple[Term, Term]]:
+    """(each, condition on each) when the query is `return self._h(test)` and _h is, for every class below, the one
+    recursive descent `if test(self): return True; return any(c._h(test) for c in self.children())`"""
+    from .terms import _State
+    inlined_test = None
+    if len(outs) == 2 and all(o.kind == 'return' and len(norm_guards(o.guards)) == 1 for o in outs):
+        # the first level of the descent already looked through: [test(self)] True / [not test(self)] any(c._h(test) ...)
+        hit = next((o for o in outs if norm_guards(o.guards)[0][1] and o.value == Const(True)), None)
+        miss = next((o for o in outs if not norm_guards(o.guards)[0][1]), None)
+        mv = miss.value if miss is not None else None
+        if hit is not None and miss is not None and norm_guards(hit.guards)[0][0] == norm_guards(miss.guards)[0][0] \
+                and isinstance(mv, Call) and isinstance(mv.func, Ext) and mv.func.name == 'any' and len(mv.args) == 1 and isinstance(mv.args[0], Comp) and len(mv.args[0].gens) == 1:
+            tgt0, it0, ifs0 = mv.args[0].gens[0]
+            elt0 = mv.args[0].elt
+            if not ifs0 and isinstance(it0, Call) and call_name(it0) == 'children' and call_recv(it0) == base_t and isinstance(elt0, Call) and call_name(elt0) is not None \
+                    and call_recv(elt0) == Sym(f'each:{tgt0}') and len(elt0.args) == 1 and not elt0.kwargs:
+                on_self = ctx.ev.apply(elt0.args[0], (base_t,), (), _State(), 0)
+                h0 = fi.cls.resolve(call_name(elt0))
+                if on_self == norm_guards(hit.guards)[0][0] and h0 is not None:
+                    inlined_test = norm_guards(hit.guards)[0][0]
+                    v = Call(BoundMethod(base_t, h0.key, h0.name), elt0.args)
+    if inlined_test is None:
+        if len(outs) != 1 or outs[0].kind != 'return' or outs[0].guards:
+            return None
+        v = outs[0].value
+    if not (isinstance(v, Call) and isinstance(v.func, BoundMethod) and v.func.recv == base_t and len(v.args) == 1 and not v.kwargs):
+        return None
+    hfi = ctx.ev.callee(v.func)
+    if hfi is None or hfi.cls is None or ctx.model.overrides(hfi.cls, hfi.name) or len(hfi.params()) != 2:
+        return None
+    test = Sym('test')
+    h_self = Sym('self', hfi.cls.name)
+    houts = ctx.ev.run(hfi, {'self': h_self, hfi.params()[1]: test})
+    applied = Call(test, (h_self,))
+    shape_ok = False
+    rec = None
+    if len(houts) == 2 and all(o.kind == 'return' for o in houts):
+        hit = next((o for o in houts if any(g == applied and pol for g, pol in norm_guards(o.guards))), None)
+        miss = next((o for o in houts if any(g == applied and not pol for g, pol in norm_guards(o.guards))), None)
+        if hit is not None and miss is not None and hit.value == Const(True) and len(norm_guards(hit.guards)) == 1 and len(norm_guards(miss.guards)) == 1:
+            rec = miss.value
+    elif len(houts) == 1 and houts[0].kind == 'return' and not houts[0].guards and isinstance(houts[0].value, Op) and houts[0].value.op == 'or' \
+            and len(houts[0].value.args) == 2 and houts[0].value.args[0] == applied:
+        rec = houts[0].value.args[1]
+    if isinstance(rec, Call) and isinstance(rec.func, Ext) and rec.func.name == 'any' and len(rec.args) == 1 and isinstance(rec.args[0], Comp) and len(rec.args[0].gens) == 1:
+        tgt, it, ifs = rec.args[0].gens[0]
+        e = Sym(f'each:{tgt}')
+        elt = rec.args[0].elt
+        shape_ok = not ifs and isinstance(it, Call) and call_name(it) == 'children' and call_recv(it) == h_self and not it.args \
+            and isinstance(elt, Call) and call_recv(elt) == e and call_name(elt) == hfi.name and elt.args == (test,)
+    if not shape_ok:
+        return None
+    each = Sym('each:node')
+    arg = v.args[0]
+    cond = ctx.ev.apply(arg, (each,), (), _State(), 0)
+    if isinstance(cond, Call) and cond.func == arg:
+        return None     # the test could not be applied (not a lambda / a function of the package)
+    return each, cond
 
 
 def _bad_combiner(v: Term, q: str) -> Optional[str]:
